@@ -122,6 +122,17 @@ func tableFor(gs *pokerface.GameState, ids []string, at int) *pt.Table {
 	return t
 }
 
+// safeDeliver hands a view to a runner; a runner that panics has not made its move
+func safeDeliver(a actor.Actor, t *pt.Table) (panicked bool) {
+	defer func() {
+		if r := recover(); r != nil {
+			panicked = true
+		}
+	}()
+	a.UpdateTableState(t)
+	return false
+}
+
 func applyCall(be *pt.NativeGameBackend, gs *pokerface.GameState, me int, call []interface{}) string {
 	kind, amt := call[0].(string), call[1].(int64)
 	if kind == "ready" || kind == "pay" {
@@ -310,19 +321,33 @@ func cmdActors(args []string) int {
 				a.SetRunner(bot)
 				gsk := cloneGS(shown)
 				ad.gs = gsk
-				a.UpdateTableState(tableFor(gsk, ids, 0))
+				t1 := tableFor(gsk, ids, 0)
+				t1.UpdateSerial = 10
+				panicked := safeDeliver(a, t1)
 				calls := ad.snapshot()
 				res := "none"
-				if len(calls) == 1 {
+				if panicked {
+					res = "panic"
+				} else if len(calls) == 1 {
 					c := calls[0]
 					res = applyCall(be, cloneGS(shown), me, []interface{}{c[0], c[1]})
 				}
 				emit(actorLine{Ev: "botmove", Hand: hand, Me: me, MyID: ids[me], Calls: calls, Res: res, Status: "bot", AT: 0})
 				if k == 0 {
-					// the same view again: a stale view must not trigger a second move
-					a.UpdateTableState(tableFor(cloneGS(shown), ids, 0))
+					// the same hand state again, republished by a table-level event (higher table serial), and an older
+					// hand state arriving late: a stale view must not trigger a second move
+					t2 := tableFor(cloneGS(shown), ids, 0)
+					t2.UpdateSerial = 11
+					a.UpdateTableState(t2)
 					again := ad.snapshot()
 					emit(actorLine{Ev: "botstale", Hand: hand, Me: me, MyID: ids[me], Calls: again[len(calls):], Res: "none", Status: "bot", AT: 0})
+					old := cloneGS(shown)
+					old.UpdatedAt--
+					t3 := tableFor(old, ids, 0)
+					t3.UpdateSerial = 12
+					a.UpdateTableState(t3)
+					again2 := ad.snapshot()
+					emit(actorLine{Ev: "botstale", Hand: hand, Me: me, MyID: ids[me], Calls: again2[len(again):], Res: "none", Status: "bot", AT: 0})
 				}
 			}
 			// ---- player runner auto-play (C19)
